@@ -80,7 +80,9 @@ def convert_watched(job):
         try:
             rec["out"] = D.structure(text)[0]
         except Exception:  # noqa
-            rec["end"] = "exc:unparsable-output"
+            # returned normally, but the serialisation is not even well-formed XML: not a picosvg
+            rec["out"] = {"nodes": [{"d": 0, "k": "el", "ns": "other", "tag": "not-well-formed-xml", "at": [],
+                                     "toks": [], "fillref": [], "gnum": []}]}
     return rec
 
 
@@ -141,12 +143,15 @@ def supervise(jobs, wd, nproc=None):
     return recs
 
 
-def use_graph_doc(uses):
-    """uses[x][j-1] = number of <use href=#ij> inside element x (x = 0: the body)."""
+def use_graph_doc(uses, deep=False):
+    """uses[x][j-1] = number of <use href=#ij> inside element x (x = 0: the body); deep: the uses sit in
+    a nested group of their container instead of being its direct children"""
     n = len(uses) - 1
     parts = ['<svg %s viewBox="0 0 16 16">' % NS, "<defs>"]
     for x in range(1, n + 1):
         inner = "".join('<use xlink:href="#i%d" x="%d"/>' % (j, j) * uses[x][j - 1] for j in range(1, n + 1))
+        if deep and inner:
+            inner = '<g><g fill="red">%s</g></g>' % inner
         parts.append('<g id="i%d"><rect x="%d" y="1" width="2" height="2"/>%s</g>' % (x, x, inner))
     parts.append("</defs>")
     parts.append("".join('<use xlink:href="#i%d" y="%d"/>' % (j, 3 * j) * uses[0][j - 1] for j in range(1, n + 1)))
@@ -237,6 +242,8 @@ def run(out, tier):
         for bits in itertools.product(vals, repeat=cells):
             uses = [list(bits[x * n:(x + 1) * n]) for x in range(n + 1)]
             jobs.append(("usegraph", uses, use_graph_doc(uses)))
+            if sum(map(sum, uses[1:])):
+                jobs.append(("usegraph", uses, use_graph_doc(uses, deep=True)))
         # multiplicity 2 on a few (growth = product of multiplicities)
         for uses in ([[2, 0, 0], [0, 2, 0], [0, 0, 2], [0, 0, 0]], [[1, 1, 1], [0, 2, 2], [0, 0, 2], [0, 0, 0]],
                      [[2, 2], [0, 2], [0, 0]], [[2, 0], [0, 2], [2, 0]]):
